@@ -15,7 +15,9 @@ package c06
 
 import (
 	"fmt"
+	"os"
 	"reflect"
+	rpprof "runtime/pprof"
 	"sort"
 	"strings"
 
@@ -64,6 +66,7 @@ var (
 // alternation, an anchored name, everything, every source file, nothing.
 var (
 	nameRx      = []string{"a", "b", "f2", "m1", "m2", "a|b", "^a$", ".", "go", "x"}
+	nameRxPair  = []string{"a", "b", "f2", "m1", "a|b", "^a$", "."}
 	nameRxSmall = []string{"a", "b", "m1", "f2"}
 	nameKinds   = []string{"focus", "ignore", "hide", "show", "show_from"}
 	tagSelKinds = []string{"tagfocus", "tagignore"}
@@ -224,9 +227,13 @@ func pairsOf(k1 []string, v1 []string, k2 []string, v2 []string, sameFamily bool
 
 // nameSettings: each name option alone, every pair of name options (full
 // product of the expression menu), the triple focus+ignore+hide.
-func nameSettings() []Filt {
+func nameSettings(thorough bool) []Filt {
 	out := singles(nameKinds, nameRx)
-	out = append(out, pairsOf(nameKinds, nameRx, nameKinds, nameRx, true)...)
+	pm := nameRxPair
+	if thorough {
+		pm = nameRx
+	}
+	out = append(out, pairsOf(nameKinds, pm, nameKinds, pm, true)...)
 	for _, f := range nameRxSmall {
 		for _, i := range nameRxSmall {
 			for _, h := range nameRxSmall {
@@ -279,19 +286,24 @@ func e2eSettings(thorough bool) []Filt {
 
 // Run is the check.
 func Run(c *vk.Ctx) {
+	if pf := os.Getenv("C06_CPUPROF"); pf != "" {
+		f, _ := os.Create(pf)
+		rpprof.StartCPUProfile(f)
+		defer rpprof.StopCPUProfile()
+	}
 	k := &checker{c: c}
-	dSingle, dPairSum, dBinary := 3, 4, 5
+	dSingle, dPairEach, dPairSum, dBinary := 3, 2, 4, 5
 	if c.Thorough() {
-		dSingle, dPairSum, dBinary = 4, 5, 7
+		dSingle, dPairEach, dPairSum, dBinary = 4, 3, 5, 7
 	}
 	single7 := enum.Shapes(sigma7, dSingle)
 	shapes6 := enum.Shapes(sigma6, 3)
 	shapes3 := enum.Shapes(sigma3, dBinary)
-	nset, tset, xset, eset := nameSettings(), tagSettings(), crossSettings(), e2eSettings(c.Thorough())
-	c.Note(fmt.Sprintf("names: alphabet 7 kinds (a b c ab ?1 ?2 n; binaries m1 m2), all inline groupings; single stacks depth<=%d (%d) x 4 id/sharing/address schemes, pairs of stacks (6 kinds) of total depth<=%d sharing equal locations x 2 schemes, deep single stacks over (a b ?1) depth<=%d (%d); x %d name settings (5 options alone x %d expressions, all 10 pairs x %d^2, triple focus+ignore+hide x %d^3); "+
+	nset, tset, xset, eset := nameSettings(c.Thorough()), tagSettings(), crossSettings(), e2eSettings(c.Thorough())
+	c.Note(fmt.Sprintf("names: alphabet 7 kinds (a b c ab ?1 ?2 n; binaries m1 m2), all inline groupings; single stacks depth<=%d (%d) x 4 id/sharing/address schemes, pairs of stacks (6 kinds) of depth<=%d each and <=%d together sharing equal locations x 2 schemes, deep single stacks over (a b ?1) depth<=%d (%d); x %d name settings (5 options alone x %d expressions, all 10 pairs x %d^2, triple focus+ignore+hide x %d^3); "+
 		"tags: %d label sets, all ordered pairs%s x %d tag settings (4 options alone, all pairs; %d tag expressions, %d key expressions); cross: %d settings (name option x tag option); frameless: samples without frames; "+
 		"e2e: %d settings x (proto, proto+relative_percentages, traces) on stacks of depth<=2 and pairs of depth<=1, top totals for focus/ignore partitions, interactive 'proto F -I'",
-		dSingle, len(single7), dPairSum, dBinary, len(shapes3), len(nset), len(nameRx), len(nameRx), len(nameRxSmall),
+		dSingle, len(single7), dPairEach, dPairSum, dBinary, len(shapes3), len(nset), len(nameRx), pairMenuLen(c.Thorough()), len(nameRxSmall),
 		len(labelSets), map[bool]string{false: "", true: " and triples"}[c.Thorough()], len(tset), len(tagVals), len(tagKeyRx), len(xset), len(eset)))
 
 	var idx int64
@@ -373,7 +385,7 @@ func Run(c *vk.Ctx) {
 	for i := range shapes6 {
 		for j := i; j < len(shapes6); j++ {
 			di, dj := depthOf(shapes6[i]), depthOf(shapes6[j])
-			if di == 0 || di+dj > dPairSum {
+			if di == 0 || di > dPairEach || dj > dPairEach || di+dj > dPairSum {
 				continue
 			}
 			if c.Mine(idx) {
@@ -526,6 +538,13 @@ func Run(c *vk.Ctx) {
 	}
 }
 
+func pairMenuLen(thorough bool) int {
+	if thorough {
+		return len(nameRx)
+	}
+	return len(nameRxPair)
+}
+
 func tags(sigma []enum.Kind, shs []enum.Shape) []string {
 	var out []string
 	for _, s := range shs {
@@ -544,6 +563,7 @@ func lsNames(ls []int) []string {
 
 // nameCases runs all name settings on one profile at the library level.
 func (k *checker) nameCases(cs Case, a *ap.AP, o ap.Opts, settings []Filt) {
+	eff := map[string]bool{}
 	for _, f := range settings {
 		cs.Filter = f
 		if len(f.Active()) == 1 {
@@ -551,7 +571,7 @@ func (k *checker) nameCases(cs Case, a *ap.AP, o ap.Opts, settings []Filt) {
 		}
 		got, v := k.evalLib(cs, a, o, "applyFocus")
 		if got != nil && (v.ok && !v.skipped) {
-			k.nameStats(cs, a, f, got)
+			k.nameStats(cs, a, f, got, eff)
 		}
 	}
 	k.partition(cs, a, o)
@@ -569,7 +589,8 @@ func nframes(s *ap.Stack) int {
 	return n
 }
 
-func (k *checker) nameStats(cs Case, a *ap.AP, f Filt, got *ap.AP) {
+// eff remembers, per profile, whether a single option had an effect.
+func (k *checker) nameStats(cs Case, a *ap.AP, f Filt, got *ap.AP, eff map[string]bool) {
 	c := k.c
 	act := f.Active()
 	gotBy := map[string]*ap.Stack{}
@@ -646,23 +667,11 @@ func (k *checker) nameStats(cs Case, a *ap.AP, f Filt, got *ap.AP) {
 			changed = true
 		}
 	}
-	if len(act) == 2 && changed {
+	if len(act) == 1 {
+		eff[f.String()] = changed
+	} else if len(act) == 2 && changed {
 		// both options have an effect of their own on this profile?
-		eff := 0
-		for _, kind := range act {
-			e, ok := Apply(a, Filt{}.With(kind, *f.field(kind)), reading{}, defects{})
-			if ok && (len(e.Stacks) != len(a.Stacks) || func() bool {
-				for i := range e.Stacks {
-					if nframes(&e.Stacks[i]) != nframes(&a.Stacks[i]) {
-						return true
-					}
-				}
-				return false
-			}()) {
-				eff++
-			}
-		}
-		if eff == 2 {
+		if eff[Filt{}.With(act[0], *f.field(act[0])).String()] && eff[Filt{}.With(act[1], *f.field(act[1])).String()] {
 			c.Count("combination/two-name-options-both-effective", 1)
 		}
 	}
